@@ -59,6 +59,9 @@ static void spec_dibit(long double v, int& b1, int& b0)
     static const int level[4] = {3, 1, -1, -3};
     static const int first[4] = {0, 0, 1, 1};
     static const int second[4] = {1, 0, 0, 1};
+    // beyond +-4 the nearest level is the outer one; clamping keeps the differences below exact in long double
+    if (v > 4) v = 4;
+    if (v < -4) v = -4;
     int best = 0;
     long double bd = fabsl(v - level[0]);
     for (int n = 1; n != 4; ++n) { long double d = fabsl(v - level[n]); if (d < bd) { bd = d; best = n; } }
